@@ -11,7 +11,7 @@ ALPHA = ([("post_fifo", x) for x in "ADET"] + [("post_lifo", x) for x in "DE"] +
 
 def run(tier):
     res = Result(PID)
-    depth = 6 if tier == "quick" else 9
+    depth = 6 if tier == "quick" else 8
     queued.run_bfs(res, PID, ALPHA, depth)
     res.coverage["rule"] = ("BFS over operation sequences of depth <= %d over %r on a real HsmWithQueues chart (spied and plain "
                             "states) vs two lists (queue, deferred); states = distinct (queue, deferred) contents; every "
